@@ -355,6 +355,57 @@ fn c02_mmn_ep_lower() {
     kani::cover!(r.en_passant.is_some());
 }
 
+/// precondition for the direct-check clause, SYMBOLIC opponent king: as pre_move, plus the opponent is not attacked by a
+/// knight or pawn of the mover before the move (the side not to move is never in check)
+pub(crate) fn pre_move_direct() -> (Board, sp::Pos, ChessMove, sp::Mv) {
+    let (b, pos, m, mv) = pre_move();
+    let me = pos.stm;
+    let k = pos.king_sq(1 - me);
+    kani::assume(sp::s_knight(k) & pos.pieces[1] & pos.colors[me] == 0);
+    kani::assume(sp::s_pawn_att(k, 1 - me) & pos.pieces[0] & pos.colors[me] == 0);
+    (b, pos, m, mv)
+}
+/// what the statements before the slider scan leave behind (observed through the scan-free run): the scan is anchored on
+/// the opponent king; pinned is empty; checkers are exactly the mover's knights and pawns attacking that king
+pub(crate) fn check_direct(r: &Board) {
+    let rp = to_pos(r);
+    let k = rp.king_sq(rp.stm);
+    let e = rp.colors[1 - rp.stm];
+    unsafe {
+        assert!(crate::vstubs::RAY_ARGS.0 == k && crate::vstubs::RAY_ARGS.1 == k);
+    }
+    assert!(r.pinned.0 == 0);
+    assert!(r.checkers.0 == (sp::s_knight(k) & e & rp.pieces[1]) ^ (sp::s_pawn_att(k, rp.stm) & e & rp.pieces[0]));
+}
+
+// @ob id=O2.1c props=C02,C03,C04,C01 tier=quick kind=proof weight=light fn="Board::make_move_new" desc="SYMBOLIC opponent king (all 64 squares at once), the part of make_move_new BEFORE the slider scan (observed by running with recording EMPTY-ray stand-ins, so the scan has no iterations): both ray accessors are asked about the opponent king's square; pinned is empty; checkers are exactly the mover's knights and pawns attacking that king in the result position (moved knight, knight promotion, pawn push/capture/en-passant capture). With the Verus tail proof O2.1t (scan adds the pointwise slider contributions for EVERY king square) and lemma S1.6 (pointwise == eight ray walks) the result's checkers/pinned equal the from-scratch spec for every king square"
+#[kani::proof]
+#[kani::unwind(9)]
+#[kani::stub(crate::magic::get_bishop_rays, crate::vstubs::rec_bishop_rays)]
+#[kani::stub(crate::magic::get_rook_rays, crate::vstubs::rec_rook_rays)]
+#[kani::stub(crate::magic::get_knight_moves, crate::vstubs::knight_moves_cf)]
+#[kani::stub(crate::magic::get_pawn_attacks, crate::vstubs::pawn_attacks_cf)]
+fn c02_mmn_direct_checks() {
+    let (b, _pos, m, _mv) = pre_move_direct();
+    let r = b.make_move_new(m);
+    check_direct(&r);
+    kani::cover!(r.checkers.0 != 0);
+}
+
+// @ob id=O2.2c props=C02 also=C03 tier=quick kind=proof weight=light fn="Board::make_move" desc="second entry point, any prior content of the output board: same pre-scan contract as O2.1c (scan anchored on the opponent king, pinned empty, direct knight/pawn checks exact), symbolic king; composes with the Verus tail proof O2.2t"
+#[kani::proof]
+#[kani::unwind(9)]
+#[kani::stub(crate::magic::get_bishop_rays, crate::vstubs::rec_bishop_rays)]
+#[kani::stub(crate::magic::get_rook_rays, crate::vstubs::rec_rook_rays)]
+#[kani::stub(crate::magic::get_knight_moves, crate::vstubs::knight_moves_cf)]
+#[kani::stub(crate::magic::get_pawn_attacks, crate::vstubs::pawn_attacks_cf)]
+fn c02_mm_direct_checks() {
+    let (b, _pos, m, _mv) = pre_move_direct();
+    let mut out = any_raw_board();
+    b.make_move(m, &mut out);
+    check_direct(&out);
+}
+
 /// precondition for the check/pin clause, opponent king (colour kc) fixed on ksq: as pre_move, plus no knight or
 /// pawn of the mover already attacks that king (the opponent is not in check before the move)
 pub(crate) fn pre_move_king(kc: usize, ksq: u8) -> (Board, sp::Pos, ChessMove, sp::Mv) {
